@@ -123,6 +123,15 @@ def sock_cases(tier, rnd):
                             ["send", "zone_ctrl", pol, "inline"],
                             ["send", "ac_ctrl", "long", "inline"],
                             ["adv", back + busy + 3.0]])
+    # --- open_socket() again (what a repeated init() does) while a message is held for the next
+    #     connection: a no-op, the message still goes out first
+    for pol in ("idem", "long", "short"):
+        for d in (0.3, 0.9):
+            out.append([["q"], ["wfail", 1], ["net", "accept", d],
+                        ["send", "zone_ctrl", pol, "inline"], ["open"], ["adv", 0.1], ["open"],
+                        ["send", "ac_ctrl", "idem", "inline"], ["adv", d + 3.0]])
+            out.append([["q"], ["net", "accept", d], ["fin"], ["q"],
+                        ["send", "zone_ctrl", pol, "inline"], ["open"], ["adv", d + 3.0]])
     # --- two messages: the retried one must go first on the next connection
     for n in (1, 2, 3):
         out.append([["q"], ["wfail", n], ["net", "accept", 0.5],
@@ -196,6 +205,10 @@ def cases(tier, seed):
         for cmd in AW.COMMANDS[gen]:
             for fault in ("w1", "w2", "w3", "k2", "k3", "k4", "down_0.5", "down_1.5", "down_31"):
                 yield {"k": "api", "gen": gen, "cmd": cmd, "fault": fault}
+        for i, cmd in enumerate(AW.COMMANDS[gen]):
+            for fault in ("down_0.5", "down_1.5", "k2"):
+                if (i + len(fault)) % 3 == 0 or tier == "thorough":
+                    yield {"k": "api", "gen": gen, "cmd": cmd, "fault": fault, "again": True}
         for req in ("heartbeat", "refresh", "error_info") + (("group_poll",) if gen == 4 else ()):
             for fault in ("w1", "w2", "w3"):
                 yield {"k": "api_req", "gen": gen, "req": req, "fault": fault}
